@@ -9,13 +9,13 @@ from collections import defaultdict, deque
 
 # ----------------------------------------------------------------------------- helpers on operands
 def op_place(op):
-    if op is None:
+    if not isinstance(op, dict):
         return None
     return op.get('cp') or op.get('mv')
 
 
 def op_const(op):
-    return op.get('c') if op else None
+    return op.get('c') if isinstance(op, dict) else None
 
 
 def const_val(op):
@@ -864,7 +864,7 @@ def discr_switch_after_call(body, call_block):
 
 
 # ----------------------------------------------------------------------------- access paths
-APATH_TRANSPARENT = re.compile(r'(::|^)(deref|deref_mut|borrow|borrow_mut|as_ref|as_mut|get_mut|clone|as_deref|as_deref_mut|as_pin_mut|get_ref|into_inner|project|project_ref|as_pin_ref|new_unchecked|new|get_unchecked_mut|map_unchecked_mut)$')
+APATH_TRANSPARENT = re.compile(r'(::|^)(deref|deref_mut|borrow|borrow_mut|as_ref|as_mut|get_mut|clone|as_deref|as_deref_mut|as_pin_mut|get_ref|into_inner|project|project_ref|as_pin_ref|new_unchecked|new|get_unchecked_mut|map_unchecked_mut|into_future)$')
 
 
 def apath(body, x, depth=0, seen=None):
@@ -938,4 +938,83 @@ def calls_on_field(body, callee_pat, field, idx=0):
         else:
             if tuple(ap[-len(field):]) == tuple(field):
                 out.append((bi, t, ap))
+    return out
+
+
+# ----------------------------------------------------------------------------- enum arms / awaits
+def discr_switches(body, adt=None, ty_pat=None):
+    """Switches on `discriminant(place)`; yields (switch_block, place, adt_path, ty, term)."""
+    for i in sorted(body.live):
+        blk = body.blocks[i]
+        t = blk['term']
+        if t['k'] != 'switch':
+            continue
+        p = op_place(t['discr'])
+        if not p or place_proj(p):
+            continue
+        src = None
+        for s in blk['stmts']:
+            if s['k'] == 'assign' and s['lhs']['l'] == p['l'] and not place_proj(s['lhs']) and s['rv']['k'] == 'discr':
+                src = s['rv']
+        if src is None:
+            # discriminant computed in a dominating block
+            for (xb, xs, kind, x) in body.defs.get(p['l'], []):
+                if kind == 'assign' and x['rv']['k'] == 'discr':
+                    src = x['rv']
+        if src is None:
+            continue
+        if adt and src.get('adt') != adt:
+            continue
+        if ty_pat and not re.search(ty_pat, src.get('ty', '')):
+            continue
+        yield i, src['place'], src.get('adt'), src.get('ty'), t
+
+
+def variant_edges(F, body, adt):
+    """{variant name: [(switch_block, target_block)]} for every switch over discriminants of `adt`.
+    The otherwise edge is attributed to the variants not listed (when exactly one remains)."""
+    out = defaultdict(list)
+    vs = F.adts[adt]['variants']
+    by_discr = {v.get('discr', i): v['name'] for i, v in enumerate(vs)}
+    for sb, place, a, ty, t in discr_switches(body, adt=adt):
+        listed = set()
+        for v, tb in t['targets']:
+            if v in by_discr:
+                out[by_discr[v]].append((sb, tb))
+                listed.add(v)
+        rest = [d for d in by_discr if d not in listed]
+        oth = t['otherwise']
+        if body.blocks[oth]['term']['k'] != 'unreachable' or body.blocks[oth]['stmts']:
+            for d in rest:
+                out[by_discr[d] + '?'].append((sb, oth))
+            if len(rest) == 1:
+                out[by_discr[rest[0]]].append((sb, oth))
+    return out
+
+
+def arm_region(body, edges):
+    """Blocks that can only be reached through one of the given edges."""
+    succ = [list(s) for s in body.succ]
+    for s, d in edges:
+        succ[s] = [x for x in succ[s] if x != d]
+    without = body.reachable(0, succ=succ)
+    return body.live - without
+
+
+def await_points(body):
+    """Awaits of a coroutine body: dicts(poll_block, ready, pending, awaited=access path of the
+    awaited future, yield_blocks)."""
+    out = []
+    for bi, t in body.calls():
+        ty = body.local_ty(t['dest']['l'])
+        if not ty.startswith('std::task::Poll<') or 'Await' not in t.get('mac', ''):
+            continue
+        r = discr_switch_after_call(body, bi)
+        if not r:
+            continue
+        sb, tg, oth = r
+        ready = tg.get(0, oth)
+        pending = tg.get(1, oth)
+        ap = apath(body, t['args'][0]) if t['args'] else None
+        out.append(dict(poll=bi, switch=sb, ready=ready, pending=pending, awaited=ap, callee=callee_name(t)))
     return out
